@@ -125,6 +125,37 @@ class rdflib_mulpath_patched:
 
 
 KNOWN_ID = "C07-rdflib-mulpath-truthiness"
+KNOWN_LJ = "C07-rdflib-leftjoin-after-values"
+LJ_WHAT = ("sparql_mode over a local rdflib graph loses focus nodes when a shape has two or more values of one target kind (VALUES clause) and an OPTIONAL of the target query "
+           "has no match for a VALUES row: rdflib's evalLeftJoin re-checks the OPTIONAL with the VALUES variables forgotten and drops the row (SPARQL keeps it)")
+
+
+class rdflib_leftjoin_patched:
+    """rdflib.plugins.sparql.evaluate.evalLeftJoin with the plain SPARQL semantics: a solution of the left side without a
+    compatible solution of the OPTIONAL is kept as it is"""
+
+    def __enter__(self):
+        import rdflib.plugins.sparql.evaluate as EV
+        self.EV, self.orig = EV, EV.evalLeftJoin
+        self.applied = all(hasattr(EV, n) for n in ("evalPart", "_ebv"))
+
+        def evalLeftJoin(ctx, join):
+            for a in EV.evalPart(ctx, join.p1):
+                ok = False
+                c = ctx.thaw(a)
+                for b in EV.evalPart(c, join.p2):
+                    if EV._ebv(join.expr, b.forget(ctx)):
+                        ok = True
+                        yield b
+                if not ok:
+                    yield a
+        if self.applied:
+            EV.evalLeftJoin = evalLeftJoin
+        return self
+
+    def __exit__(self, *exc):
+        self.EV.evalLeftJoin = self.orig
+        return False
 
 
 def deep_path(kind, n):
@@ -316,6 +347,16 @@ def mode_cases(rng, n):
             c["sg"] = S.shapes_to_rdf(c["shapes"])
             c["opts"] = {}
             c["family"] = "core components"
+        elif r < 0.52:
+            # several values for several target kinds at once (the VALUES clause of the target query)
+            data, nodes, lits = S.gen_typed_data(rng, n_iri=rng.randint(3, 6), n_bn=1, n_lit=1, n_triples=rng.randint(6, 14))
+            sh_ = S.new_shape(EX["MT%d" % j], None)
+            sh_["targets"]["classes"] = rng.sample(S.CLASSES, rng.randint(0, 3))
+            sh_["targets"]["subjects_of"] = [URIRef(x) for x in rng.sample(S.PREDS, rng.randint(0, 3))]
+            sh_["targets"]["objects_of"] = [URIRef(x) for x in rng.sample(S.PREDS, rng.randint(0, 3))]
+            sh_["targets"]["nodes"] = rng.sample(nodes, rng.randint(0, 2))
+            sh_["comps"].append(rng.choice([("in", []), ("class", [EX.NoSuchClass]), ("nodekind", "NKLiteral")]))
+            c = {"shapes": [sh_], "sg": S.shapes_to_rdf([sh_]), "data": data, "opts": {}, "family": "multi-valued targets"}
         elif r < 0.7:
             c = EC.base_case(rng)
             c["opts"] = rng.choice([{}, {}, {"abort_on_first": True}, {"allow_warnings": True}])
@@ -388,9 +429,22 @@ def main(tier, seed, replay=None):
     known = {k.get("id") for k in F.load_known_findings(PROP)}
     unexplained = []
     for i, desc, o_mem, o_sp in diff:
+        def agrees(o2):
+            return o2 is not None and o2[0] == o_mem[0] and ((o2[0] == "err" and o2[1] == o_mem[1]) or (o2[0] == "ok" and o2[1] == o_mem[1] and EC.keys(o2) == EC.keys(o_mem)))
+        with rdflib_leftjoin_patched() as pl:
+            o3 = S.run_validate(cases[i]["data"], cases[i]["sg"], sparql_mode=True, **cases[i]["opts"]) if pl.applied else None
+        if agrees(o3) and KNOWN_LJ in known:
+            rep.known_finding(KNOWN_LJ, LJ_WHAT)
+            continue
         with rdflib_mulpath_patched() as pt:
             o2 = S.run_validate(cases[i]["data"], cases[i]["sg"], sparql_mode=True, **cases[i]["opts"]) if pt.applied else None
-        same = o2 is not None and o2[0] == o_mem[0] and ((o2[0] == "err" and o2[1] == o_mem[1]) or (o2[0] == "ok" and o2[1] == o_mem[1] and EC.keys(o2) == EC.keys(o_mem)))
+        same = agrees(o2)
+        if not same and KNOWN_LJ in known and KNOWN_ID in known:
+            with rdflib_leftjoin_patched() as pl, rdflib_mulpath_patched() as pt:
+                o4 = S.run_validate(cases[i]["data"], cases[i]["sg"], sparql_mode=True, **cases[i]["opts"]) if (pl.applied and pt.applied) else None
+            if agrees(o4):
+                rep.known_finding(KNOWN_LJ, LJ_WHAT)
+                same = True
         if same and KNOWN_ID in known:
             rep.known_finding(KNOWN_ID, "sparql_mode differs from in-memory evaluation where a term that is false in Python (0, false, \"\") meets a path with * + ?: rdflib.paths.MulPath.eval tests `if subj:` (the difference vanishes with `is not None`)")
         else:
